@@ -1,4 +1,4 @@
-"""Coverage-guided fuzz campaigns (atheris / libFuzzer) - thorough-tier add-on for C09 and C12.
+"""Coverage-guided fuzz campaigns (atheris / libFuzzer) - thorough-tier add-on for C06, C09, C12, C18 and C19.
 
 Run as a subprocess by the property modules' `extra_campaign`:
     python -m vf.fuzz <Cxx> <stats.json> <replay.json> -runs=N -seed=S [corpus dir]
@@ -114,7 +114,77 @@ def decode_c09(data):
     return case
 
 
-DECODERS = {"C12": decode_c12, "C09": decode_c09}
+def _posfloat(fdp, lo, hi):
+    """A float in [lo, hi]: either any bit pattern folded into the range, or a two-decimal number."""
+    import math
+
+    if fdp.ConsumeBool():
+        x = abs(fdp.ConsumeFloat())
+        if not math.isfinite(x):
+            x = hi
+        while x > hi:
+            x /= 1024.0
+        return max(lo, x)
+    return max(lo, min(hi, fdp.ConsumeIntInRange(int(lo * 100), int(min(hi, 2e7) * 100)) / 100))
+
+
+def decode_c06(data):
+    fdp = atheris.FuzzedDataProvider(data)
+    if fdp.ConsumeIntInRange(0, 4) < 4:
+        M = _posfloat(fdp, 1e-3, 1e4)
+        k = fdp.ConsumeIntInRange(0, 3)
+        if k == 0:
+            v = _posfloat(fdp, 0.0, 1e6)
+        elif k == 1:
+            v = fdp.ConsumeIntInRange(0, 40) * M
+        elif k == 2:
+            import math
+
+            v = fdp.ConsumeIntInRange(1, 40) * M
+            for _ in range(fdp.ConsumeIntInRange(0, 3)):
+                v = math.nextafter(v, math.inf if fdp.ConsumeBool() else -math.inf)
+        else:
+            v = fdp.ConsumeIntInRange(0, 4000) / 100 * M
+        if v / M > 3e5:
+            v = M * 7.5
+        return {"kind": "pv", "M": M, "v": max(0.0, v)}
+    M = max(0.05, fdp.ConsumeIntInRange(5, 200000) / 100)
+    n = fdp.ConsumeIntInRange(1, 4)
+    vols = []
+    for _ in range(n):
+        k = fdp.ConsumeIntInRange(0, 2)
+        v = fdp.ConsumeIntInRange(0, 300000) / 100 if k == 0 else (round(fdp.ConsumeIntInRange(0, 12) * M, 2) if k == 1 else round(fdp.ConsumeIntInRange(0, 1200) / 100 * M, 2))
+        vols.append(v if v / M <= 14 else round(M * 3.5, 2))
+    return {
+        "kind": "transfer", "M": M, "device": ["evo", "fluent"][fdp.ConsumeIntInRange(0, 1)], "src_trough": fdp.ConsumeBool(),
+        "src": [fdp.ConsumeIntInRange(0, 7) for _ in range(n)], "dst": [fdp.ConsumeIntInRange(0, 15) for _ in range(n)], "vols": vols,
+        "wash": [1, 2, 3, 4, "flush", "reuse"][fdp.ConsumeIntInRange(0, 5)], "partition_by": ["auto", "source", "destination"][fdp.ConsumeIntInRange(0, 2)],
+    }
+
+
+def decode_c18(data):
+    fdp = atheris.FuzzedDataProvider(data)
+    letters = "ABCDEFGHIJKLMNOPQRSTUVWXYZ"
+    nrows = [1, 2, 3, 8, 26][fdp.ConsumeIntInRange(0, 4)]
+    cols = sorted({fdp.ConsumeIntInRange(1, 99) for _ in range(fdp.ConsumeIntInRange(1, 5))})
+    triples = []
+    for _ in range(fdp.ConsumeIntInRange(0, 12)):
+        s = f"{letters[fdp.ConsumeIntInRange(0, nrows - 1)]}{cols[fdp.ConsumeIntInRange(0, len(cols) - 1)]:02d}"
+        d = f"{letters[fdp.ConsumeIntInRange(0, nrows - 1)]}{cols[fdp.ConsumeIntInRange(0, len(cols) - 1)]:02d}"
+        triples.append([s, d, fdp.ConsumeIntInRange(0, 2000000) / 1000])
+    return {"kind": "part", "mode": ["source", "destination"][fdp.ConsumeIntInRange(0, 1)], "triples": triples}
+
+
+def decode_c19(data):
+    fdp = atheris.FuzzedDataProvider(data)
+    rep = ["grid2d", "colslice", "list", "array1d", "tuple"][fdp.ConsumeIntInRange(0, 4)]
+    case = {"rep": rep, "rows": fdp.ConsumeIntInRange(1, 26), "cols": fdp.ConsumeIntInRange(1, 6), "ns": [fdp.ConsumeIntInRange(0, 3000) for _ in range(fdp.ConsumeIntInRange(1, 3))]}
+    if rep in ("list", "array1d", "tuple") and fdp.ConsumeBool():
+        case["pattern"] = [fdp.ConsumeIntInRange(0, 7) for _ in range(fdp.ConsumeIntInRange(1, 8))]
+    return case
+
+
+DECODERS = {"C12": decode_c12, "C09": decode_c09, "C06": decode_c06, "C18": decode_c18, "C19": decode_c19}
 
 
 def main(argv):
